@@ -7,6 +7,7 @@ import sys
 import tempfile
 
 from rdkit import Chem
+from rdkit.Geometry import Point3D
 
 from harness import vlib
 from harness import molgen as MG
@@ -127,6 +128,15 @@ class C14(vlib.Check):
         for nm in SUFFIX_NAMES + [x for x in NAMES if x]:
             self.count("naming")
             yield {"t": "naming", "name": nm, "n": 3}
+        for k in range(12 if self.tier == "quick" else 150):
+            # the same molecule object handed to an entry point again after it was edited in place (an isotope label, moved
+            # coordinates, a new name), and other molecules in between: each call answers for the molecule as it is now
+            o = MG.gen_opts(rng)
+            o["level"] = rng.choice([2, 3, 5])
+            self.count("same-object-edited")
+            yield {"t": "reuse", "ref": rng.choice(refs), "other": rng.choice(refs), "nconf": rng.choice([1, 2, 3]), "first": rng.choice([-1, 1, 2]), "opts": o,
+                   "entry": rng.choice(["from_mol", "dict"]), "name": rng.choice(["mol", "x", None]), "between": rng.random() < 0.3,
+                   "edits": rng.sample(["isotope", "isotope", "coords", "name", "hcount"], 2), "atom": rng.randrange(64)}
         for k in range(2 if self.tier == "quick" else 8):
             self.count("from_smiles")
             yield {"t": "smiles", "smiles": rng.choice(["CCCCOC(=O)CCN", "CCCCCCO", "NCCCCC(=O)O"]), "firsts": [1, 3, 2], "seed": 11}
@@ -185,7 +195,7 @@ class C14(vlib.Check):
         if case["t"] == "naming":
             from e3fp.conformer.util import MolItemName
             return {"ok": [MolItemName.from_str(case["name"]).to_conf_name(j) for j in range(case["n"])]}
-        if case["t"] == "smiles":
+        if case["t"] in ("smiles", "reuse"):
             return {"ok": "see prop"}
         r = attempt(lambda: self._run_entry(case))
         if "ok" not in r:
@@ -210,7 +220,7 @@ class C14(vlib.Check):
     def model_ops(self, case):
         if case["t"] == "naming":
             return [{"op": "pipe.plan", "name": case["name"], "nconf": case["n"], "first": -1, "level": 0, "all_iters": False, "select": 0}]
-        if case["t"] == "smiles":
+        if case["t"] in ("smiles", "reuse"):
             return [{"op": "fpr.hash", "words": []}]
         lvl = case["opts"]["level"]
         lvl = -1 if lvl is None else lvl
@@ -242,7 +252,7 @@ class C14(vlib.Check):
         a = answers[0]
         if case["t"] == "naming":
             return {"ok": a["ok"]["names"]} if "ok" in a else a
-        if case["t"] == "smiles":
+        if case["t"] in ("smiles", "reuse"):
             return {"ok": "see prop"}
         if "ok" not in a:
             return a
@@ -300,6 +310,8 @@ class C14(vlib.Check):
             if outs != ref:
                 return {"key": "from-smiles-history-dependent", "what": "fprints_from_smiles with first=%s returned %s fingerprints; each call alone returns %s" % (case["firsts"], outs, ref)}
             return None
+        if case["t"] == "reuse":
+            return self._prop_reuse(case)
         o = case["opts"]
         mol = sub_mol(case["ref"], case["nconf"], case["name"], case.get("idmode"))
         if not in_dom(mol, o, case["entry"]):
@@ -367,6 +379,60 @@ class C14(vlib.Check):
                 k = lvl if sfx == "_complete" else int(sfx)
                 if got["files"][sfx] != d[str(k)]:
                     return {"key": "saved-reload-differs:" + case["ext"], "what": "fingerprints reloaded from %s differ from the returned ones" % sfx}
+        return None
+
+    def _prop_reuse(self, case):
+        o = case["opts"]
+        mol = sub_mol(case["ref"], case["nconf"], case["name"])
+        other = sub_mol(case["other"], 1, "other")
+        if not in_dom(mol, o, case["entry"]) or not in_dom(other, o, case["entry"]):
+            return None
+        params = fp_params(o, case["first"])
+        lvl = o["level"]
+
+        def entry(m):
+            if case["entry"] == "from_mol":
+                return [(f.name, dump_fp(f)) for f in PL.fprints_from_mol(m, fprint_params=params)]
+            return [(f.name, dump_fp(f)) for f in FG.fprints_dict_from_mol(m, **params)[lvl]]
+
+        def expected(m, name):
+            n = m.GetNumConformers()
+            N = n if case["first"] == -1 or case["first"] >= n else case["first"]
+            return [(None if name is None else "%s_%d" % (name, j), d) for j, d in enumerate(self._direct(m, o, lvl, N))]
+        name = case["name"]
+        try:
+            got0 = entry(mol)
+            if got0 != expected(mol, name):
+                return None          # (the plain case belongs to the entry cases above)
+            for e in case["edits"]:
+                if case["between"]:
+                    entry(other)
+                heavy = [a for a in mol.GetAtoms() if a.GetAtomicNum() > 1]
+                a = heavy[case["atom"] % len(heavy)]
+                if e == "isotope":
+                    a.SetIsotope(a.GetIsotope() + 1 if a.GetIsotope() else {6: 13, 7: 15, 8: 18}.get(a.GetAtomicNum(), 2 * a.GetAtomicNum() + 3))
+                elif e == "hcount":
+                    a.SetNoImplicit(True)
+                    a.SetNumExplicitHs(a.GetTotalNumHs() + 1 if a.GetTotalNumHs() < 3 else 0)
+                elif e == "coords":
+                    for c in mol.GetConformers():
+                        for i in range(c.GetNumAtoms()):
+                            q = c.GetAtomPosition(i)
+                            c.SetAtomPosition(i, Point3D(q.x * 1.25, q.y * 0.8, q.z * 1.1))
+                else:
+                    name = "renamed"
+                    mol.SetProp("_Name", name)
+                if not in_dom(mol, o, case["entry"]):
+                    return None
+                got = entry(mol)
+                want = expected(mol, name)
+                if got != want:
+                    bad = [j for j in range(min(len(got), len(want))) if got[j] != want[j]]
+                    return {"key": "differs-from-direct:%s:same-object-edited:%s" % (case["entry"], e),
+                            "what": "%s on a molecule object it was given before, after an in-place edit (%s): %d fingerprints returned, %d expected, conformers %s differ from direct fingerprinting of the molecule as it is now" % (
+                                case["entry"], e, len(got), len(want), bad)}
+        except Exception as ex:  # noqa: BLE001
+            return {"key": "entry-raises:%s:%s" % (case["entry"], type(ex).__name__), "what": "%s raised %r" % (case["entry"], ex)}
         return None
 
     def nontrivial(self, case, a_impl):
